@@ -145,6 +145,10 @@ func exec(op string) vlib.Res {
 			return vlib.Res{Impl: "stale-constants", Oracle: "-"}
 		}
 		return subNest(f[2], uint32(vlib.AtoU64(f[3])))
+	case "sigs new":
+		return sigsNew(f)
+	case "sigs verify":
+		return sigsVerify(f)
 	case "l3 new", "l3 query", "l3 again":
 		return l3Op(f, op)
 	case "loop new":
